@@ -79,11 +79,15 @@ def showType (t : Nat) : String :=
   | 3 => "A" ++ l
   | _ => "?"
 
-/-- `h:k:T` -/
+/-- `h:k:T`, or `h:k:T!` for an entry of the batch the `FetchCompleted` handler returned after a `PutLocalRecord` of the
+same reply (`deadline` field 1: `choiceDone`) -/
 def parseChoice (s : String) : Option Entry :=
+  let (s, mark) := match s.toList.reverse with
+    | '!' :: r => (String.ofList r.reverse, 1)
+    | _ => (s, 0)
   match s.splitOn ":" with
   | [a, b, c] => match a.toNat?, b.toNat?, parseType c with
-    | some h, some k, some t => some ⟨k, t, h, 0⟩
+    | some h, some k, some t => some ⟨k, t, h, mark⟩
     | _, _, _ => none
   | _ => none
 
